@@ -106,7 +106,7 @@ class System:
         fr = self.index.rp66v1_file
         vr, lrsh = fr.visible_record, fr.logical_record_segment_header
         return (self.f.tell(), vr.position, vr.length, lrsh.position, lrsh.length, lrsh.attributes.attributes,
-                lrsh.record_type)
+                lrsh.record_type, bfs.generic_state(fr, depth=3))
 
 
 def step(system, op, check):
